@@ -19,13 +19,16 @@ import Scico.Proofs.ProxGroup
 import Scico.Proofs.ProxSep
 import Scico.Proofs.ProxNonconvex
 import Scico.Proofs.ProxL1L2C
+import Scico.Proofs.ProxCubic
+import Scico.Proofs.ProxNuclear
+import Scico.Proofs.ProxPhase
 
 set_option linter.unusedSectionVars false
 
 namespace Scico.Props.C02
 
 open Scico Scico.Prox Scico.ProxSpec Scico.ProxBridge Scico.ProxConvex Scico.ProxGroup Scico.ProxSep
-  Scico.ProxNonconvex Scico.ProxL1L2 WithLp
+  Scico.ProxNonconvex Scico.ProxL1L2 Scico.ProxCubic Scico.ProxNuclear Scico.ProxPhase WithLp
 
 /-! ## generic theorems (any real inner-product space: ℝⁿ, ℂⁿ with `Re⟨·,·⟩`, block arrays) -/
 
@@ -377,16 +380,29 @@ theorem C02_sqL2Abs_complex {lam scale : ℝ} (hlam : 0 < lam) (hs : 0 ≤ scale
       rw [e]; exact h)
   exact this.congr_dom setOf_forall_univC
 
-/-- the hypothesis on the value `r` returned by `_dep_cubic_root(p, q)` for one entry
-    (`alpha = 4·lam·scale·w`, `p = (1 - alpha y)/alpha`, `q = -|v|/alpha`):
-    it is a non-negative root of `r³ + p r + q`, and it is `0` only if `alpha·y ≤ 1`. -/
-def CubicRootOK (lam scale w y absv r : ℝ) : Prop :=
-  0 < lam * 4 * scale * w →
-    0 ≤ r ∧ r ^ 3 + depCubicP scale w y lam * r + depCubicQ scale w absv lam = 0 ∧
-      (r = 0 → lam * 4 * scale * w * y ≤ 1)
+/-- why `SquaredL2AbsLoss` advertises its prox only for data `y ≥ 0` (the `snp.all(y >= 0)` guard of the constructor):
+    with `y = -1`, `v = 1/2`, `scale = 1/2`, `w = 1`, `lam = 1` the formula returns `-1/4` (objective `17/16`) while `x = 0`
+    has objective `5/8` — the hypothesis `hy` of `C02_sqL2Abs` cannot be dropped. -/
+theorem C02_sqL2Abs_negative_y_not_min :
+    ¬ IsGMin Set.univ (fun x : EuclideanSpace ℝ (Fin 1) => ∑ i, (1 / 2 : ℝ) * (fun _ => (1 : ℝ)) i * ((fun _ => (-1 : ℝ)) i - |x i|) ^ 2)
+        1 (toE (fun _ : Fin 1 => (1 / 2 : ℝ)))
+        (toE (sqL2AbsProx (1 / 2) (fun _ : Fin 1 => (1 : ℝ)) (fun _ => -1) (fun _ => 1 / 2) 1)) := by
+  intro h
+  have h0 := h.2 (toE (fun _ : Fin 1 => (0 : ℝ))) trivial
+  have hp : sqL2AbsProx (1 / 2) (fun _ : Fin 1 => (1 : ℝ)) (fun _ => -1) (fun _ => 1 / 2) 1 = fun _ => (-1 / 4 : ℝ) := by
+    funext i
+    simp only [sqL2AbsProx, sqL2AbsProx1, hasAbs_abs]
+    norm_num
+  rw [hp] at h0
+  simp only [EuclideanSpace.norm_eq, Fin.sum_univ_one, toE_apply, PiLp.sub_apply, Real.norm_eq_abs, sq_abs] at h0
+  rw [Real.sq_sqrt (sq_nonneg _), Real.sq_sqrt (sq_nonneg _)] at h0
+  norm_num at h0
 
-/-- `SquaredL2SquaredAbsLoss.prox`, real input, GIVEN the root relation (the cubic solver is a contract):
-    global minimiser of `Σ scale·w_i (y_i - |x_i|²)²`, weights `w ≥ 0` (zeros allowed) -/
+-- the hypothesis on the value `r` returned by `_dep_cubic_root(p, q)` for one entry is `Scico.ProxCubic.CubicRootOK`
+-- (`alpha = 4·lam·scale·w`, `p = (1 - alpha y)/alpha`, `q = -|v|/alpha`): `0 < alpha → 0 ≤ r ∧ r³ + p r + q = 0 ∧ (r = 0 → alpha·y ≤ 1)`
+
+/-- `SquaredL2SquaredAbsLoss.prox`, real input, GIVEN the root relation: global minimiser of `Σ scale·w_i (y_i - |x_i|²)²`,
+    weights `w ≥ 0` (zeros allowed), any `y` -/
 theorem C02_sqL2SqAbs {lam scale : ℝ} (hlam : 0 < lam) (hs : 0 ≤ scale) (w y v r : Fin n → ℝ)
     (hw : ∀ i, 0 ≤ w i) (hroot : ∀ i, CubicRootOK lam scale (w i) (y i) |v i| (r i)) :
     IsGMin Set.univ (fun x : EuclideanSpace ℝ (Fin n) => ∑ i, scale * w i * (y i - |x i| ^ 2) ^ 2) lam (toE v)
@@ -395,41 +411,61 @@ theorem C02_sqL2SqAbs {lam scale : ℝ} (hlam : 0 < lam) (hs : 0 ≤ scale) (w y
     (D := fun _ => Set.univ) (φ := fun i x => scale * w i * (y i - ‖x‖ ^ 2) ^ 2)
     (fun i => by
       show IsGMin Set.univ _ lam (v i) (sqL2SqAbsProx1 scale (w i) (v i) lam (r i))
-      unfold sqL2SqAbsProx1
-      simp only [hasAbs_abs]
-      by_cases hα : 0 < lam * 4 * scale * w i
-      · rw [if_pos hα]
-        obtain ⟨hr0, hrt, hsel⟩ := hroot i hα
-        have e4 : 4 * lam * (scale * w i) = lam * 4 * scale * w i := by ring
-        have ha : 0 < scale * w i := by
-          by_contra hc
-          push Not at hc
-          nlinarith
-        have hrt' : 4 * lam * (scale * w i) * r i ^ 3 + (1 - 4 * lam * (scale * w i) * y i) * r i - ‖v i‖ = 0 := by
-          unfold depCubicP depCubicQ at hrt
-          simp only [noNanDiv_eq, if_neg hα.ne'] at hrt
-          rw [e4, Real.norm_eq_abs]
-          generalize lam * 4 * scale * w i = A at hα hrt ⊢
-          have h2 : A * (r i ^ 3 + (1 - A * y i) / A * r i + -|v i| / A) = A * r i ^ 3 + (1 - A * y i) * r i - |v i| := by
-            field_simp
-            ring
-          rw [← h2, hrt, mul_zero]
-        have h := min_sqL2SqAbs hlam ha (v i) (1 : ℝ) (by simp) hr0 hrt' (fun h0 => by rw [e4]; exact hsel h0)
-        have e : (r i * if 0 < |v i| then v i / |v i| else 1) =
-            if 0 < ‖v i‖ then r i • ((1 / ‖v i‖) • v i) else r i • (1 : ℝ) := by
-          rw [Real.norm_eq_abs]; split_ifs <;> simp [div_eq_inv_mul]
-        rw [e]; exact h
-      · rw [if_neg hα]
-        have h0 : scale * w i = 0 := by
-          have hnn : 0 ≤ lam * 4 * scale * w i := by have := hw i; positivity
-          have : lam * 4 * scale * w i = 0 := le_antisymm (not_lt.mp hα) hnn
-          have h4 : lam * 4 * (scale * w i) = 0 := by rw [← this]; ring
-          rcases mul_eq_zero.mp h4 with h | h
-          · exact absurd h (by positivity)
-          · exact h
-        simp only [h0]
-        exact min_zero_weight (v i) _)
+      rw [sqL2SqAbsProx1_eq]
+      exact min_sqL2SqAbs_entry hlam hs (hw i) (v i) (1 : ℝ) (by simp) (hroot i))
   exact this.congr_dom setOf_forall_univ
+
+/-- `SquaredL2SquaredAbsLoss.prox`, complex input, given the root relation -/
+theorem C02_sqL2SqAbs_complex {lam scale : ℝ} (hlam : 0 < lam) (hs : 0 ≤ scale) (w y : Fin n → ℝ)
+    (v : Fin n → ℝ × ℝ) (r : Fin n → ℝ) (hw : ∀ i, 0 ≤ w i)
+    (hroot : ∀ i, CubicRootOK lam scale (w i) (y i) ‖toC (v i)‖ (r i)) :
+    IsGMin Set.univ (fun x : PiLp 2 (fun _ : Fin n => ℂ) => ∑ i, scale * w i * (y i - ‖x i‖ ^ 2) ^ 2) lam (toCn v)
+      (toCn (sqL2SqAbsProxC scale w v lam r)) := by
+  have := min_pi (F := fun _ : Fin n => ℂ) (v := toCn v) (p := toCn (sqL2SqAbsProxC scale w v lam r))
+    (D := fun _ => Set.univ) (φ := fun i x => scale * w i * (y i - ‖x‖ ^ 2) ^ 2)
+    (fun i => by
+      show IsGMin Set.univ _ lam (toC (v i)) (toC (sqL2SqAbsProxC1 scale (w i) (v i) lam (r i)))
+      rw [toC_sqL2SqAbsProxC1_eq]
+      exact min_sqL2SqAbs_entry hlam hs (hw i) (toC (v i)) (1 : ℂ) (by simp) (hroot i))
+  exact this.congr_dom setOf_forall_univC
+
+/-- **`_dep_cubic_root` as coded** (complex square root, `_cbrt` with the principal complex power, `Re(w - p/(3w))`): for
+    `q ≤ 0` and `p` outside the band `0 < |p| ≤ eps` (`eps` = the literal `1e-7`) the returned value is a non-negative root of
+    `r³ + p r + q`, and `0` only if `p ≥ 0` — in all three regimes (`p = 0`; `Δ ≥ 0`: Cardano; `Δ < 0`: trigonometric). -/
+theorem C02_cubic_root {eps p q : ℝ} (heps : 0 ≤ eps) (hq : q ≤ 0) (hband : p = 0 ∨ eps < |p|) :
+    0 ≤ depCubicRoot eps p q ∧ depCubicRoot eps p q ^ 3 + p * depCubicRoot eps p q + q = 0 ∧
+      (depCubicRoot eps p q = 0 → 0 ≤ p) := depCubicRoot_ok heps hq hband
+
+/-- inside the band the code's value is in general NOT a root (documented compromise of `_dep_cubic_root`):
+    `p = eps`, `q = -1` leaves the residual `-eps³/27 ≠ 0` -/
+theorem C02_cubic_root_band_not_root {eps : ℝ} (heps : 0 < eps) :
+    depCubicRoot eps eps (-1) ^ 3 + eps * depCubicRoot eps eps (-1) + (-1) ≠ 0 := by
+  rw [depCubicRoot_band_residual heps]
+  have : 0 < eps ^ 3 / 27 := by positivity
+  linarith
+
+/-- **`SquaredL2SquaredAbsLoss.prox` with the root computed by the code's closed form** (no relation assumed), real input:
+    global minimiser whenever no entry falls into the band `0 < |p_i| ≤ eps` of `_dep_cubic_root` -/
+theorem C02_sqL2SqAbs_closed {eps lam scale : ℝ} (heps : 0 ≤ eps) (hlam : 0 < lam) (hs : 0 ≤ scale)
+    (w y v : Fin n → ℝ) (hw : ∀ i, 0 ≤ w i)
+    (hband : ∀ i, 0 < lam * 4 * scale * w i →
+      depCubicP scale (w i) (y i) lam = 0 ∨ eps < |depCubicP scale (w i) (y i) lam|) :
+    IsGMin Set.univ (fun x : EuclideanSpace ℝ (Fin n) => ∑ i, scale * w i * (y i - |x i| ^ 2) ^ 2) lam (toE v)
+      (toE (sqL2SqAbsProxFull eps scale w y v lam)) :=
+  C02_sqL2SqAbs hlam hs w y v
+    (fun i => depCubicRoot eps (depCubicP scale (w i) (y i) lam) (depCubicQ scale (w i) |v i| lam)) hw
+    (fun i => cubicRootOK_model heps (abs_nonneg _) (hband i))
+
+/-- the same for complex input -/
+theorem C02_sqL2SqAbs_closed_complex {eps lam scale : ℝ} (heps : 0 ≤ eps) (hlam : 0 < lam) (hs : 0 ≤ scale)
+    (w y : Fin n → ℝ) (v : Fin n → ℝ × ℝ) (hw : ∀ i, 0 ≤ w i)
+    (hband : ∀ i, 0 < lam * 4 * scale * w i →
+      depCubicP scale (w i) (y i) lam = 0 ∨ eps < |depCubicP scale (w i) (y i) lam|) :
+    IsGMin Set.univ (fun x : PiLp 2 (fun _ : Fin n => ℂ) => ∑ i, scale * w i * (y i - ‖x i‖ ^ 2) ^ 2) lam (toCn v)
+      (toCn (sqL2SqAbsProxFullC eps scale w y v lam)) :=
+  C02_sqL2SqAbs_complex hlam hs w y v
+    (fun i => depCubicRoot eps (depCubicP scale (w i) (y i) lam) (depCubicQ scale (w i) (cabs (v i)) lam)) hw
+    (fun i => by rw [← cabs_eq]; exact cubicRootOK_model heps (by rw [cabs_eq]; exact norm_nonneg _) (hband i))
 
 -- SPEC of the L1-L2 functional: `Scico.ProxL1L2.l1l2Fn beta x = ∑ i, |x i| - beta * ‖x‖`
 
@@ -447,6 +483,96 @@ theorem C02_l1l2_complex {lam beta : ℝ} (hlam : 0 < lam) (hb : 0 ≤ beta) (v 
     IsGMin Set.univ (l1l2FnC beta) lam (toCn v) (toCn (l1l2ProxC beta v lam)) := l1l2_min_complex hlam hb v
 
 end Nonconvex
+
+/-! ## nuclear norm: the matrix problem (not only the singular values) -/
+
+section Nuclear
+variable {m n k : ℕ}
+
+/-- **`NuclearNorm.prox` on `m × n` real matrices.**  `U`, `s`, `Vh` are what `svd(v, full_matrices=False)` returned
+    (CONTRACT, checked numerically by the tie: orthonormal columns of `U`, orthonormal rows of `Vh`, `s ≥ 0`,
+    `v = U diag(s) Vh`); `hex` is the contract that every matrix has such a decomposition; `nucNorm hex` is the sum of the
+    singular values (well defined by `sum_sv_unique`).  Then `svdU @ diag(maximum(0, svdS - lam)) @ svdV` carries the
+    sub-gradient certificate — hence is THE minimiser of `lam‖X‖_* + ½‖X - v‖_F²`, firmly non-expansive.
+    No trace inequality (von Neumann) is assumed: the proof needs Bessel and Cauchy–Schwarz only. -/
+theorem C02_nuclear
+    (hex : ∀ Z : MatE m n, ∃ (k : ℕ) (u : Fin k → EuclideanSpace ℝ (Fin m)) (s : Fin k → ℝ)
+      (w : Fin k → EuclideanSpace ℝ (Fin n)), IsSVD outerM Z u s w)
+    {lam : ℝ} (hlam : 0 < lam) (U : Fin m → Fin k → ℝ) (s : Fin k → ℝ) (Vh : Fin k → Fin n → ℝ)
+    (hU : Orthonormal ℝ (colE U)) (hV : Orthonormal ℝ (rowE Vh)) (hs : ∀ l, 0 ≤ s l) :
+    Cert Set.univ (nucNorm hex) lam (matE (usvMat U s Vh)) (matE (nuclearProx U s Vh lam)) := by
+  have e1 : usvMat U s Vh = fun i j => ∑ l, U i l * s l * Vh l j := by
+    funext i j; exact vsum_eq _
+  have e2 : nuclearProx U s Vh lam = fun i j => ∑ l, U i l * max 0 (s l - lam) * Vh l j := by
+    funext i j
+    unfold nuclearProx nuclearSvProx
+    rw [vsum_eq]
+    simp only [maxP_eq]
+  rw [e1, e2]
+  exact cert_nuclear_matrix (fun _ _ _ _ _ h => nucNorm_eq isOuter_outerM hex h) hex hlam U s Vh hU hV hs
+
+/-- the sum of the singular values is independent of the thin SVD chosen (what makes "the nuclear norm" of the code,
+    `sum(svd(x, compute_uv=False))`, a function of the matrix) -/
+theorem C02_nuclear_sum_sv_unique {k' : ℕ} {Z : MatE m n} {u : Fin k → EuclideanSpace ℝ (Fin m)} {s : Fin k → ℝ}
+    {w : Fin k → EuclideanSpace ℝ (Fin n)} {u' : Fin k' → EuclideanSpace ℝ (Fin m)} {s' : Fin k' → ℝ}
+    {w' : Fin k' → EuclideanSpace ℝ (Fin n)} (h : IsSVD outerM Z u s w) (h' : IsSVD outerM Z u' s' w') :
+    ∑ i, s i = ∑ j, s' j := sum_sv_unique isOuter_outerM h h'
+
+end Nuclear
+
+/-! ## complex phase, block arrays -/
+
+section PhaseBlock
+
+/-- the phase factor of the code, `exp(1j * angle(v))`, is the model's `cphase v` (`v/|v|`, `1` at `v = 0`) -/
+theorem C02_phase (z : ℝ × ℝ) :
+    toC (cphase z) = Complex.exp (Complex.I * (Complex.arg (toC z) : ℂ)) := cphase_eq_exp z
+
+variable {B : ℕ} {sz : Fin B → ℕ}
+
+/-- `L1Norm.prox` on a block array (`BlockArray` = product space of its blocks): block-wise soft threshold -/
+theorem C02_block_l1 {lam : ℝ} (hlam : 0 < lam) (v : ∀ b : Fin B, Fin (sz b) → ℝ) :
+    Cert Set.univ (fun x : PiLp 2 (fun b : Fin B => EuclideanSpace ℝ (Fin (sz b))) => ∑ b, ∑ i, |x b i|) lam
+      (toLp 2 (fun b => toE (v b))) (toLp 2 (fun b => toE (l1Prox (v b) lam))) := by
+  have := C02_separable (F := fun b : Fin B => EuclideanSpace ℝ (Fin (sz b))) (D := fun _ => Set.univ)
+    (φ := fun b x => ∑ i, |x i|) (lam := lam) (v := toLp 2 (fun b => toE (v b)))
+    (p := toLp 2 (fun b => toE (l1Prox (v b) lam))) (fun b => C02_l1 hlam (v b))
+  exact this.congr_dom (by ext; simp)
+
+/-- `L21Norm(l2_axis=None).prox` on a block array: the functional is the sum of the block norms, the prox shrinks every
+    block radially (`new_length · v_b/‖v_b‖`, and `0` for a zero block) -/
+theorem C02_block_l21 {lam : ℝ} (hlam : 0 < lam) (v : PiLp 2 (fun b : Fin B => EuclideanSpace ℝ (Fin (sz b)))) :
+    Cert Set.univ (fun x : PiLp 2 (fun b : Fin B => EuclideanSpace ℝ (Fin (sz b))) => ∑ b, ‖x b‖) lam v
+      (toLp 2 (fun b => (if ‖v b‖ = 0 then 0 else max (1 - lam / ‖v b‖) 0) • v b)) := by
+  have := C02_separable (F := fun b : Fin B => EuclideanSpace ℝ (Fin (sz b))) (D := fun _ => Set.univ)
+    (φ := fun b x => ‖x‖) (lam := lam) (v := v)
+    (p := toLp 2 (fun b => (if ‖v b‖ = 0 then 0 else max (1 - lam / ‖v b‖) 0) • v b))
+    (fun b => C02_l2_general hlam (v b))
+  exact this.congr_dom (by ext; simp)
+
+end PhaseBlock
+
+/-! ## the flags: a prox is advertised only where the theorems above apply -/
+
+section Guards
+
+/-- `SquaredL2AbsLoss` / `SquaredL2SquaredAbsLoss` advertise a prox exactly when the constructor accepted the weights
+    (`W` absent or a non-negative `Diagonal` — hypothesis `hw`), `A` is the identity and the data are non-negative
+    (hypothesis `hy` of `C02_sqL2Abs`, shown necessary by `C02_sqL2Abs_negative_y_not_min`) -/
+theorem C02_guard_abs (w : WArg) (a : AArg) (yn : Bool) :
+    absLossGuard w a yn = .hasProxClosed ↔
+      (w = .none ∨ w = .diagNonneg) ∧ (a = .none ∨ a = .identity) ∧ yn = true := by
+  cases w <;> cases a <;> cases yn <;> simp [absLossGuard, wGuard]
+
+/-- `SquaredL2Loss` uses the closed form of `C02_sqL2loss_diag` exactly for accepted weights and `A` absent / identity /
+    diagonal; every other linear operator goes to conjugate gradient (not exact: outside C02), a non-linear one has no prox -/
+theorem C02_guard_sqL2 (w : WArg) (a : AArg) :
+    (sqL2LossGuard w a = .hasProxClosed ↔
+      (w = .none ∨ w = .diagNonneg) ∧ (a = .none ∨ a = .identity ∨ a = .diagonal)) ∧
+    (sqL2LossGuard w a = .hasProxCG ↔ (w = .none ∨ w = .diagNonneg) ∧ a = .otherLinop) := by
+  cases w <;> cases a <;> simp [sqL2LossGuard, wGuard]
+
+end Guards
 
 /-! ## non-vacuity: the hypotheses are satisfiable on concrete, non-trivial instances, and the
     theorems say something about concrete numbers -/
@@ -484,6 +610,42 @@ example : l1l2Fn 1 (toE (fun i : Fin 2 => if i = 0 then (1 : ℝ) else 0)) = 0 :
   unfold l1l2Fn
   have h := norm_onesparse (n := 2) 0 (1 : ℝ)
   rw [h]; simp
+
+-- the root relation is DISCHARGED by the model of `_dep_cubic_root` there (no assumption left): alpha = 1, y = 0, |v| = 2
+example : CubicRootOK (1 / 4) 1 1 0 2 (depCubicRoot (1 / 10 ^ 7) (depCubicP 1 1 0 (1 / 4)) (depCubicQ 1 1 2 (1 / 4))) :=
+  cubicRootOK_model (by positivity) (by norm_num) (fun _ => by
+    right
+    have : depCubicP (1 : ℝ) 1 0 (1 / 4) = 1 := by simp [depCubicP, noNanDiv_eq]
+    rw [this]; norm_num)
+-- hypotheses of C02_nuclear on a concrete SVD: U = Vh = identity (2×2), s = (3, 1)
+example : Orthonormal ℝ (colE (fun i l : Fin 2 => if i = l then (1 : ℝ) else 0)) := by
+  rw [orthonormal_iff_ite]
+  intro i j
+  fin_cases i <;> fin_cases j <;> simp [colE, PiLp.inner_apply, EuclideanSpace.norm_eq]
+
+-- the SVD contract `hex` is satisfiable: every 1 × 1 matrix z is |z| · (1)(sign z)ᵀ
+example : ∀ Z : MatE 1 1, ∃ (k : ℕ) (u : Fin k → EuclideanSpace ℝ (Fin 1)) (s : Fin k → ℝ)
+    (w : Fin k → EuclideanSpace ℝ (Fin 1)), IsSVD outerM Z u s w := by
+  intro Z
+  refine ⟨1, fun _ => toLp 2 (fun _ => 1), fun _ => |Z (0, 0)|,
+    fun _ => toLp 2 (fun _ => if Z (0, 0) < 0 then -1 else 1), ?_, ?_, fun _ => abs_nonneg _, ?_⟩
+  · rw [orthonormal_iff_ite]; intro i j
+    fin_cases i; fin_cases j; simp [EuclideanSpace.norm_eq]
+  · rw [orthonormal_iff_ite]; intro i j
+    fin_cases i; fin_cases j
+    by_cases h : Z (0, 0) < 0 <;> simp [EuclideanSpace.norm_eq, h]
+  · ext ij
+    obtain ⟨a, b⟩ := ij
+    fin_cases a; fin_cases b
+    by_cases h : Z (0, 0) < 0
+    · simp [outerM, h, abs_of_neg h]
+    · simp [outerM, h, abs_of_nonneg (not_lt.mp h)]
+
+-- the band hypothesis of C02_sqL2SqAbs_closed on a concrete entry: lam = 1/4, scale = w = 1 (alpha = 1), y = 0 gives p = 1
+example : depCubicP (1 : ℝ) 1 0 (1 / 4) = 0 ∨ (1 / 10 ^ 7 : ℝ) < |depCubicP (1 : ℝ) 1 0 (1 / 4)| := by
+  right
+  have : depCubicP (1 : ℝ) 1 0 (1 / 4) = 1 := by simp [depCubicP, noNanDiv_eq]
+  rw [this]; norm_num
 
 end Examples
 
